@@ -153,7 +153,7 @@ class Fn:
                     firsts[nm].append(l)
         ren = []
         for nm, l, pj in self.var_places:
-            if not pj and len(firsts.get(nm, ())) > 1 and firsts[nm].index(l) > 0 and not nm.startswith("__"):
+            if not pj and len(firsts.get(nm, ())) > 1 and firsts[nm].index(l) > 0 and not nm.startswith("__") and nm != "self":
                 ren.append(("%s__%d" % (nm, firsts[nm].index(l) + 1), l, pj))
             else:
                 ren.append((nm, l, pj))
